@@ -1,6 +1,7 @@
 package rules
 
 import (
+	"go/types"
 	"fmt"
 	"go/token"
 	"strings"
@@ -108,6 +109,14 @@ func xlocks(c *Ctx) (*report.Result, error) {
 		if !isShippedFunc(f) {
 			continue
 		}
+		for _, sw := range swallowedErrors(f) {
+			res.Viol("XE", shortFn(f)+": "+sw.what, instrPos(c.Prog, sw.at), "")
+		}
+	}
+	for _, f := range c.Prog.RepoFuncs() {
+		if !isShippedFunc(f) {
+			continue
+		}
 		for _, sec := range flow.Sections(f) {
 			for _, ins := range sec.Instrs {
 				if w := blockingOp(ins); w != "" {
@@ -117,4 +126,161 @@ func xlocks(c *Ctx) (*report.Result, error) {
 		}
 	}
 	return res, nil
+}
+
+type swallowed struct {
+	at        ssa.Instruction
+	what      string
+	eofOfRecv bool // io.EOF from a stream Recv: the normal end of a receive loop
+}
+
+// swallowedErrors: returns of f whose error result is the constant nil although, on every way into the returning
+// block, some error value obtained from a call is known to be non-nil (err != nil, or err == <sentinel>).
+func swallowedErrors(f *ssa.Function) []swallowed {
+	var out []swallowed
+	res := f.Signature.Results()
+	if res.Len() == 0 {
+		return nil
+	}
+	last := res.At(res.Len() - 1).Type()
+	if !types.Identical(last, types.Universe.Lookup("error").Type()) {
+		return nil
+	}
+	isErr := func(v ssa.Value) bool {
+		return v != nil && types.Identical(v.Type(), types.Universe.Lookup("error").Type())
+	}
+	for _, b := range f.Blocks {
+		if b == f.Recover || len(b.Instrs) == 0 {
+			continue
+		}
+		ret, ok := b.Instrs[len(b.Instrs)-1].(*ssa.Return)
+		if !ok {
+			continue
+		}
+		rs := flow.Ret(ret)
+		if !flow.IsNilConst(rs[len(rs)-1]) {
+			continue
+		}
+		for _, g := range flow.NormGuards(flow.Guards(b)) {
+			bo, isB := g.Cond.(*ssa.BinOp)
+			if !isB || (bo.Op != token.NEQ && bo.Op != token.EQL) {
+				continue
+			}
+			x, y := flow.ResolveLoad(bo.X), flow.ResolveLoad(bo.Y)
+			if !isErr(x) && !isErr(y) {
+				continue
+			}
+			nonNil := false
+			desc := ""
+			if flow.IsNilConst(y) || flow.IsNilConst(x) {
+				nonNil = (bo.Op == token.NEQ && g.Side) || (bo.Op == token.EQL && !g.Side)
+				desc = "err != nil"
+			} else {
+				nonNil = bo.Op == token.EQL && g.Side
+				desc = "err == " + flow.Describe(y)
+			}
+			if nonNil {
+				// not swallowed if the failure was dealt with: the return is also guarded by `err2 == nil` of an error
+				// produced by a call made after the failing one (a recovery/repair step that succeeded)
+				failed := x
+				if !isErr(failed) || flow.IsNilConst(failed) {
+					failed = y
+				}
+				recovered := false
+				var fdef ssa.Instruction
+				if ex, isEx := failed.(*ssa.Extract); isEx {
+					fdef, _ = ex.Tuple.(ssa.Instruction)
+				} else if ci, isCI := failed.(ssa.Instruction); isCI {
+					fdef = ci
+				}
+				for _, g2 := range flow.NormGuards(flow.Guards(b)) {
+					bo2, isB2 := g2.Cond.(*ssa.BinOp)
+					if !isB2 || (bo2.Op != token.NEQ && bo2.Op != token.EQL) {
+						continue
+					}
+					x2, y2 := flow.ResolveLoad(bo2.X), flow.ResolveLoad(bo2.Y)
+					var e2 ssa.Value
+					if isErr(x2) && flow.IsNilConst(y2) {
+						e2 = x2
+					} else if isErr(y2) && flow.IsNilConst(x2) {
+						e2 = y2
+					}
+					if e2 == nil || e2 == failed {
+						continue
+					}
+					isNil2 := (bo2.Op == token.EQL && g2.Side) || (bo2.Op == token.NEQ && !g2.Side)
+					if !isNil2 {
+						continue
+					}
+					var d2 ssa.Instruction
+					if ex2, isEx2 := e2.(*ssa.Extract); isEx2 {
+						d2, _ = ex2.Tuple.(ssa.Instruction)
+					} else if ci2, isCI2 := e2.(ssa.Instruction); isCI2 {
+						d2 = ci2
+					}
+					if fdef != nil && d2 != nil && flow.InstrDominates(fdef, d2) {
+						recovered = true
+					}
+				}
+				if recovered {
+					continue
+				}
+				sw := swallowed{at: ret, what: "returns a nil error under " + desc}
+				// io.EOF compared with the error of a Recv invoke
+				for _, side := range []ssa.Value{x, y} {
+					if ex, isEx := side.(*ssa.Extract); isEx {
+						if call, isC := ex.Tuple.(*ssa.Call); isC && call.Call.IsInvoke() && (call.Call.Method.Name() == "Recv" || call.Call.Method.Name() == "RecvMsg") {
+							for _, other := range []ssa.Value{x, y} {
+								if ld, isLd := other.(*ssa.UnOp); isLd {
+									if gl, isG := ld.X.(*ssa.Global); isG && gl.Name() == "EOF" && gl.Pkg != nil && gl.Pkg.Pkg.Path() == "io" {
+										sw.eofOfRecv = true
+									}
+								}
+							}
+						}
+					}
+				}
+				out = append(out, sw)
+			}
+		}
+	}
+	return out
+}
+
+// checkNoSwallowedErrors: in the given source files no function returns a nil error on a path on which an error
+// obtained from a call is known to be non-nil - except the one reviewed idiom: io.EOF from a stream's Recv ends a
+// receive loop normally. A swallowed error turns "failed" into "done": the caller stops retrying / starts a
+// listener / forwards a message on the strength of something that did not happen.
+func checkNoSwallowedErrors(c *Ctx, res *report.Result, rule string, files []string) {
+	n, bad := 0, 0
+	for _, f := range c.Prog.RepoFuncs() {
+		if !isShippedFunc(f) || !f.Pos().IsValid() {
+			continue
+		}
+		fn := c.Prog.SSA.Fset.Position(f.Pos()).Filename
+		match := false
+		for _, suf := range files {
+			if strings.HasSuffix(fn, suf) {
+				match = true
+			}
+		}
+		if !match {
+			continue
+		}
+		n++
+		for _, sw := range swallowedErrors(f) {
+			if sw.eofOfRecv {
+				continue
+			}
+			bad++
+			res.Viol(rule, "no swallowed error: "+shortFn(f)+" "+sw.what, instrPos(c.Prog, sw.at), "the function reports success (nil error) on a path on which a call it made is known to have failed")
+		}
+	}
+	if n == 0 {
+		res.Undec(rule, "functions scanned for swallowed errors", "", "no function in "+strings.Join(files, ", "))
+		return
+	}
+	if bad == 0 {
+		res.Hold(rule, "no function of "+strings.Join(files, ", ")+" returns nil under a known non-nil error", "", fmt.Sprintf("%d functions scanned; io.EOF from Recv is the only accepted idiom", n))
+	}
 }
